@@ -336,6 +336,12 @@ func c13sharedExtras(c *chk.Ctx) {
 				&spec.Proc{Name: "P", Kind: []string{spec.KCmd, spec.KGoFunc}[i%2], Cmd: spec.BuildCmd("P", in, o1, nil, nil, map[string]string{"extra": extra}), Outs: []*spec.Out{{Port: "out", Pattern: "res/p.out"}}},
 				&spec.Proc{Name: "Q", Kind: spec.KCmd, Cmd: spec.BuildCmd("Q", in, o1, nil, nil, map[string]string{"extra": extra}), Outs: []*spec.Out{{Port: "out", Pattern: "res/q.out"}}})
 			s.Conns = append(s.Conns, &spec.Conn{From: "src.out", To: "P.in"}, &spec.Conn{From: "P.out", To: "Q.in"})
+			if dir := filepath.Dir(extra); dir != "." && i%2 == 0 {
+				// a step in between tidies the directory of the additional file away: the later task's file still gets there
+				top := strings.Split(dir, "/")[0]
+				s.Procs = append(s.Procs, &spec.Proc{Name: "M", Kind: spec.KCmd, Cmd: "rm -rf ../" + top + " && " + spec.BuildCmd("M", in, o1, nil, nil, nil), Outs: []*spec.Out{{Port: "out", Pattern: "res/m.out"}}})
+				s.Conns = []*spec.Conn{{From: "src.out", To: "P.in"}, {From: "P.out", To: "M.in"}, {From: "M.out", To: "Q.in"}}
+			}
 			return s
 		}
 		s := mk("first input\n")
@@ -359,6 +365,7 @@ func c13sharedExtras(c *chk.Ctx) {
 		os.WriteFile(filepath.Join(res.Wd, extra), []byte("stale content from an earlier run\n"), 0644)
 		os.Remove(filepath.Join(res.Wd, "res/p.out"))
 		os.Remove(filepath.Join(res.Wd, "res/q.out"))
+		os.Remove(filepath.Join(res.Wd, "res/m.out"))
 		r2 := execSpec(c, root, s, Cfg{Buf: 3, Procs: 2}, nil, true, 1)
 		if r2.Hang != "" {
 			c.Inconclusive(r2.Hang)
